@@ -942,8 +942,19 @@ func usedInCondition(f *Func, s Site, obj types.Object) bool {
 	g := f.Graph()
 	used := false
 	g.ReachAll(s.After(), Cut{Stop: func(_ Point, n ast.Node) bool { return n != nil && assignsTo(info, n, obj) }}, func(p Point, n ast.Node) bool {
-		if n != nil && Cond(p.B) == n && usesObj(info, n, obj) {
-			used = true
+		if n != nil && Cond(p.B) == n {
+			// only as the argument of a predicate call: a direct comparison that
+			// implies nothing about obj on either edge classifies nothing
+			ast.Inspect(n, func(x ast.Node) bool {
+				if call, ok := x.(*ast.CallExpr); ok {
+					for _, a := range call.Args {
+						if objOf(info, a) == obj {
+							used = true
+						}
+					}
+				}
+				return true
+			})
 		}
 		return false
 	})
